@@ -1,13 +1,730 @@
-//! c05: bounded stand-in (E3) -- see DESIGN.md section 5
-#![allow(dead_code, unused_imports)]
+//! C05: encrypt then decrypt restores every string and stream (bounded-exhaustive, E3).
+//!
+//! The oracle is written from the property statement and ISO 32000 7.6, not from the library:
+//!  * round trip: the expected result of encrypt;decrypt is the ORIGINAL document (strings, streams, everything else,
+//!    trailer without /Encrypt, encryption dictionary object gone);
+//!  * after encryption a model `select filter` (V1/V2: RC4 for everything; V4/V5: StrF for strings, StmF for streams,
+//!    /Crypt + DecodeParms/Name override per stream, XRef streams exempt, the Metadata stream exempt iff
+//!    EncryptMetadata is false) says for every string / stream whether it must be unchanged (Identity / exempt),
+//!    RC4 (same length, differs if >= 16 bytes) or AES-CBC (16 byte IV + PKCS#5 padded length, differs);
+//!  * a wrong password must give Err and leave objects and trailer equal to their values before the call;
+//!  * after save + load the document is already decrypted iff the user or the owner password is the empty string.
+#![allow(dead_code, unused_imports, deprecated)]
+use crate::c03::{obj_from_json, obj_json};
 use crate::common::*;
 use crate::gen::*;
+use lopdf::encryption::crypt_filters::{Aes128CryptFilter, Aes256CryptFilter, CryptFilter, IdentityCryptFilter, Rc4CryptFilter};
+use lopdf::xref::XrefType;
+use lopdf::{Dictionary, Document, EncryptionState, EncryptionVersion, Object, Permissions, Stream, StringFormat};
+use rayon::prelude::*;
 use serde_json::{json, Value};
+use std::collections::BTreeMap;
+use std::panic::{catch_unwind, AssertUnwindSafe};
+use std::sync::Arc;
 
-pub fn run(_thorough: bool) -> Report {
-    Report::new("not built yet", false)
+// ---------------------------------------------------------------------------------------------------------------
+// the case space
+// ---------------------------------------------------------------------------------------------------------------
+
+#[derive(Clone, Copy, Debug, PartialEq)]
+enum Kind { V1, V2(usize), V4, R5, V5 }
+
+/// model-side crypt filter method
+#[derive(Clone, Copy, Debug, PartialEq)]
+enum M { Rc4, Aes128, Aes256, Identity }
+
+#[derive(Clone, Debug)]
+struct Handler {
+    kind: Kind,
+    em: bool,        // EncryptMetadata (always true for V1/V2)
+    perms: u64,      // Permissions bits
+    stm: String,     // StmF name (V4, R5, V5)
+    strf: String,    // StrF name
+    key: Vec<u8>,    // file encryption key (R5, V5)
 }
 
-pub fn replay(_v: &Value) -> Result<(), String> {
-    Err("no replay".into())
+impl Handler {
+    fn legacy(&self) -> bool { matches!(self.kind, Kind::V1 | Kind::V2(_) | Kind::V4) } // revisions 2..4
+    fn has_cf(&self) -> bool { matches!(self.kind, Kind::V4 | Kind::R5 | Kind::V5) }
+    /// the crypt filters the /CF dictionary registers, by name
+    fn registry(&self) -> Vec<(&'static str, M)> {
+        match self.kind {
+            Kind::V1 | Kind::V2(_) => vec![],
+            Kind::V4 => vec![("FRc4", M::Rc4), ("FAes", M::Aes128), ("FId", M::Identity)],
+            Kind::R5 | Kind::V5 => vec![("StdCF", M::Aes256), ("FId", M::Identity)],
+        }
+    }
+    /// (V, R) the encryption dictionary must announce (ISO 32000-2 tables 20 and 21)
+    fn v_r(&self) -> (i64, i64) {
+        match self.kind { Kind::V1 => (1, 2), Kind::V2(_) => (2, 3), Kind::V4 => (4, 4), Kind::R5 => (5, 5), Kind::V5 => (5, 6) }
+    }
+    fn to_json(&self) -> Value {
+        let (k, bits) = match self.kind { Kind::V1 => ("V1", 40), Kind::V2(b) => ("V2", b), Kind::V4 => ("V4", 128), Kind::R5 => ("R5", 256), Kind::V5 => ("V5", 256) };
+        json!({"kind": k, "bits": bits, "em": self.em, "perms": self.perms, "stm": self.stm, "str": self.strf, "key": hex(&self.key)})
+    }
+    fn from_json(v: &Value) -> Handler {
+        let bits = v["bits"].as_u64().unwrap_or(40) as usize;
+        let kind = match v["kind"].as_str().unwrap_or("V1") { "V2" => Kind::V2(bits), "V4" => Kind::V4, "R5" => Kind::R5, "V5" => Kind::V5, _ => Kind::V1 };
+        Handler { kind, em: v["em"].as_bool().unwrap_or(true), perms: v["perms"].as_u64().unwrap_or(0), stm: v["stm"].as_str().unwrap_or("").into(),
+                  strf: v["str"].as_str().unwrap_or("").into(), key: unhex(v["key"].as_str().unwrap_or("")) }
+    }
+    fn describe(&self) -> String {
+        format!("{:?} em={} perms={:#x} StmF={} StrF={}", self.kind, self.em, self.perms, self.stm, self.strf)
+    }
+}
+
+#[derive(Clone)]
+struct DocS {
+    label: String,
+    objects: Vec<((u32, u16), Object)>,
+    has_id: bool,
+    slack: u32,
+    reload: bool,
+}
+
+fn doc_json(d: &DocS) -> Value {
+    json!({"label": d.label, "has_id": d.has_id, "slack": d.slack, "reload": d.reload,
+           "objects": d.objects.iter().map(|(id, o)| json!({"id": id.0, "gen": id.1, "obj": obj_json(o)})).collect::<Vec<_>>()})
+}
+
+fn doc_from_json(v: &Value) -> DocS {
+    DocS {
+        label: v["label"].as_str().unwrap_or("").into(),
+        objects: v["objects"].as_array().cloned().unwrap_or_default().iter()
+            .map(|e| ((e["id"].as_u64().unwrap() as u32, e["gen"].as_u64().unwrap() as u16), obj_from_json(&e["obj"]))).collect(),
+        has_id: v["has_id"].as_bool().unwrap_or(true),
+        slack: v["slack"].as_u64().unwrap_or(0) as u32,
+        reload: v["reload"].as_bool().unwrap_or(true),
+    }
+}
+
+fn build_doc(s: &DocS) -> Document {
+    let mut d = Document::with_version("1.7");
+    let mut maxid = 0;
+    for (id, o) in &s.objects {
+        d.objects.insert(*id, o.clone());
+        maxid = maxid.max(id.0);
+    }
+    d.max_id = maxid + s.slack;
+    if let Some((id, _)) = s.objects.first() { d.trailer.set("Root", Object::Reference(*id)); }
+    if let Some((id, _)) = s.objects.get(1) { d.trailer.set("Info", Object::Reference(*id)); }
+    if s.has_id {
+        d.trailer.set("ID", Object::Array(vec![hexs(b"\x00\x01\x02\xfd\xfe\xff(id-0)\r\n\\"), hexs(b"second-id-16byte")]));
+    }
+    d
+}
+
+fn pat(n: usize, seed: u8) -> Vec<u8> { (0..n).map(|i| (i as u8).wrapping_mul(37).wrapping_add(seed)).collect() }
+
+fn crypt_stream(name: Option<&str>, parms: bool, array_form: bool, content: Vec<u8>) -> Object {
+    let mut d = Dictionary::new();
+    d.set("Filter", if array_form { Object::Array(vec![crate::gen::name(b"Crypt")]) } else { crate::gen::name(b"Crypt") });
+    if parms {
+        let mut p = Dictionary::new();
+        p.set("Type", crate::gen::name(b"CryptFilterDecodeParms"));
+        if let Some(n) = name { p.set("Name", crate::gen::name(n.as_bytes())); }
+        d.set("DecodeParms", Object::Dictionary(p));
+    }
+    Object::Stream(Stream::new(d, content))
+}
+
+/// the object alphabet (depends on the handler only through the crypt filter names a /Crypt override can mention)
+fn alphabet(h: &Handler) -> Vec<(String, Object)> {
+    let mut big = pat(300, 11);
+    big[100..118].copy_from_slice(b"\nendstream\nendobj\n");
+    let mut v: Vec<(String, Object)> = vec![
+        ("lit-empty".into(), lit(b"")),
+        ("lit-5".into(), lit(b"short")),
+        ("lit-15".into(), lit(b"fifteen bytes.!")),
+        ("lit-16".into(), lit(b"0123456789abcdef")),
+        ("hex-empty".into(), hexs(b"")),
+        ("hex-17-binary".into(), hexs(b"\x00\xff()\\\r\n)(<>[]%/\x80\x7f")),
+        ("lit-33".into(), lit(b"thirty-three bytes of plain text!!")),
+        ("array-nested".into(), Object::Array(vec![
+            Object::Integer(7), lit(b"sixteen byte str"),
+            Object::Array(vec![lit(b"twenty bytes of text"), Object::Dictionary(dict(vec![(b"K", hexs(&pat(18, 3)))]))]),
+            name(b"Name"), Object::Reference((1, 0)), lit(b""), Object::Null, Object::Real(0.5), Object::Boolean(true)])),
+        ("dict-nested".into(), Object::Dictionary(dict(vec![
+            (b"Title", lit(b"a title of 24 bytes long")),
+            (b"Nested", Object::Dictionary(dict(vec![(b"Deep", Object::Array(vec![lit(b"x"), lit(&pat(32, 200))]))]))),
+            (b"N", Object::Null), (b"R", Object::Reference((99, 0))), (b"I", Object::Integer(-5))]))),
+        ("stream-empty".into(), Object::Stream(Stream::new(Dictionary::new(), vec![]))),
+        ("stream-5".into(), Object::Stream(Stream::new(Dictionary::new(), b"q Q\nS".to_vec()))),
+        ("stream-15".into(), Object::Stream(Stream::new(Dictionary::new(), pat(15, 90)))),
+        ("stream-16".into(), Object::Stream(Stream::new(Dictionary::new(), pat(16, 91)))),
+        ("stream-300-binary".into(), Object::Stream(Stream::new(dict(vec![(b"Subtype", name(b"Image")), (b"Width", Object::Integer(10))]), big))),
+        ("metadata-stream".into(), Object::Stream(Stream::new(dict(vec![(b"Type", name(b"Metadata")), (b"Subtype", name(b"XML"))]),
+            b"<?xpacket begin=''?><x:xmpmeta/><?xpacket end='w'?>".to_vec()))),
+        ("metadata-stream-empty".into(), Object::Stream(Stream::new(dict(vec![(b"Type", name(b"Metadata")), (b"Subtype", name(b"XML"))]), vec![]))),
+        ("stream-with-dict-string".into(), Object::Stream(Stream::new(dict(vec![(b"Extra", lit(b"string in a stream dict"))]), pat(20, 5)))),
+        ("metadata-typed-dict".into(), Object::Dictionary(dict(vec![(b"Type", name(b"Metadata")), (b"X", lit(b"string in /Type /Metadata dict"))]))),
+        ("array-with-metadata-typed-dict".into(), Object::Array(vec![
+            Object::Dictionary(dict(vec![(b"Type", name(b"Metadata")), (b"X", lit(b"nested in a /Metadata dict"))])), lit(b"sibling string 20 bt")])),
+        ("xref-typed-stream".into(), Object::Stream(Stream::new(dict(vec![(b"Type", name(b"XRef"))]), pat(20, 77)))),
+        ("crypt-no-name".into(), crypt_stream(None, true, false, pat(32, 1))),
+        ("crypt-unknown-name".into(), crypt_stream(Some("Nope"), true, true, pat(32, 2))),
+        ("crypt-no-parms".into(), crypt_stream(None, false, false, pat(32, 3))),
+    ];
+    let names: Vec<&'static str> = if h.has_cf() { h.registry().iter().map(|x| x.0).collect() } else { vec!["FRc4"] };
+    for (i, n) in names.iter().enumerate() {
+        v.push((format!("crypt-{}", n), crypt_stream(Some(n), true, i % 2 == 1, pat(32, 40 + i as u8))));
+        v.push((format!("crypt-{}-empty", n), crypt_stream(Some(n), true, false, vec![])));
+    }
+    v
+}
+
+const SINGLE_IDS_QUICK: &[(u32, u16)] = &[(7, 3)];
+const SINGLE_IDS_THOROUGH: &[(u32, u16)] = &[(1, 0), (7, 3), (300, 65535)];
+
+/// documents of family A: every alphabet object alone (at each id of the tier), one alphabet object at a large id
+/// (in memory only), and the document that holds the whole alphabet at sparse ids (with and, for R5/V5, without /ID)
+fn docs_a(h: &Handler, thorough: bool) -> Vec<DocS> {
+    let al = alphabet(h);
+    let mut out = vec![];
+    for (k, (label, o)) in al.iter().enumerate() {
+        for id in if thorough { SINGLE_IDS_THOROUGH } else { SINGLE_IDS_QUICK } {
+            out.push(DocS { label: format!("single:{}@{}.{}", label, id.0, id.1), objects: vec![(*id, o.clone())], has_id: true, slack: (k % 3) as u32, reload: true });
+        }
+    }
+    out.push(DocS { label: "single:lit-33@16777221.1".into(), objects: vec![((16777221, 1), al[6].1.clone())], has_id: true, slack: 0, reload: false });
+    let full: Vec<((u32, u16), Object)> = al.iter().enumerate().map(|(k, (_, o))| (((2 * k + 1 + (k / 5) * 7) as u32, if k % 4 == 3 { 2 } else { 0 }), o.clone())).collect();
+    out.push(DocS { label: "full".into(), objects: full.clone(), has_id: true, slack: 2, reload: true });
+    if !h.legacy() {
+        out.push(DocS { label: "full-no-id".into(), objects: full, has_id: false, slack: 0, reload: true });
+    }
+    out
+}
+
+/// family B (thorough): all ordered pairs of alphabet objects as a two-object document
+fn docs_b(h: &Handler) -> Vec<DocS> {
+    let al = alphabet(h);
+    let mut out = vec![];
+    for (la, a) in &al {
+        for (lb, b) in &al {
+            out.push(DocS { label: format!("pair:{}+{}", la, lb), objects: vec![((2, 0), a.clone()), ((9, 1), b.clone())], has_id: true, slack: 0, reload: true });
+        }
+    }
+    out
+}
+
+const PERM_ALL: u64 = 0xF3C;
+
+fn perm_sets(thorough: bool) -> Vec<u64> {
+    if thorough { vec![PERM_ALL, 0, 0x14, 0x528] } else { vec![PERM_ALL, 0x14] }
+}
+
+fn password_pairs() -> Vec<(String, String)> {
+    let a40: String = "Abcdefghij0123456789klmnopqrst!#$%&*+-=?".into();
+    let b40: String = "Zyxwvutsrq9876543210ponmlkjihg?=-+*&%$#!".into();
+    let c32: String = "common-prefix-of-32-bytes-------".into();
+    let a130: String = "u".repeat(1) + &"0123456789".repeat(13)[..129];
+    let b130: String = "o".repeat(1) + &"9876543210".repeat(13)[..129];
+    let c127: String = "p".repeat(1) + &"abcdefghij".repeat(13)[..126];
+    assert!(a40.len() == 40 && b40.len() == 40 && c32.len() == 32 && a130.len() == 130 && b130.len() == 130 && c127.len() == 127);
+    vec![
+        ("".into(), "".into()),
+        ("".into(), "owner".into()),
+        ("user".into(), "".into()),
+        ("user".into(), "owner".into()),
+        ("same".into(), "same".into()),
+        ("p\u{e4}ssw\u{f6}rd".into(), "\u{d6}wner-\u{e9}".into()),
+        ("\u{43f}\u{430}\u{440}\u{43e}\u{43b}\u{44c}".into(), "\u{432}\u{43b}\u{430}\u{434}\u{435}\u{43b}\u{435}\u{446}".into()), // Cyrillic
+        ("\u{5bc6}\u{7801}".into(), "owner".into()),                                                                                   // CJK user password
+        (a40, b40),
+        (format!("{}-tail-user", c32), format!("{}-tail-owner", c32)),
+        (a130, b130),
+        (format!("{}u", c127), format!("{}o", c127)),
+    ]
+}
+
+fn handlers(thorough: bool) -> Vec<Handler> {
+    let mut out = vec![];
+    let mk = |kind, em, stm: &str, strf: &str, key: Vec<u8>| Handler { kind, em, perms: 0, stm: stm.into(), strf: strf.into(), key };
+    out.push(mk(Kind::V1, true, "", "", vec![]));
+    for bits in (40..=128).step_by(8) { out.push(mk(Kind::V2(bits), true, "", "", vec![])); }
+    for em in [true, false] {
+        for stm in ["FRc4", "FAes", "FId", "Identity"] {
+            for strf in ["FRc4", "FAes", "FId", "Identity"] { out.push(mk(Kind::V4, em, stm, strf, vec![])); }
+        }
+    }
+    let keys: Vec<Vec<u8>> = if thorough { vec![pat(32, 9), vec![0u8; 32]] } else { vec![pat(32, 9)] };
+    let names: Vec<&str> = if thorough { vec!["StdCF", "FId", "Identity"] } else { vec!["StdCF", "FId"] };
+    for kind in [Kind::R5, Kind::V5] {
+        for key in &keys {
+            for em in [true, false] {
+                for stm in &names { for strf in &names { out.push(mk(kind, em, stm, strf, key.clone())); } }
+            }
+        }
+    }
+    out
+}
+
+// ---------------------------------------------------------------------------------------------------------------
+// driving the library
+// ---------------------------------------------------------------------------------------------------------------
+
+fn lib_filters(h: &Handler) -> BTreeMap<Vec<u8>, Arc<dyn CryptFilter>> {
+    let mut m: BTreeMap<Vec<u8>, Arc<dyn CryptFilter>> = BTreeMap::new();
+    for (n, f) in h.registry() {
+        let a: Arc<dyn CryptFilter> = match f { M::Rc4 => Arc::new(Rc4CryptFilter), M::Aes128 => Arc::new(Aes128CryptFilter), M::Aes256 => Arc::new(Aes256CryptFilter), M::Identity => Arc::new(IdentityCryptFilter) };
+        m.insert(n.as_bytes().to_vec(), a);
+    }
+    m
+}
+
+fn make_state(h: &Handler, doc: &Document, user: &str, owner: &str) -> Result<EncryptionState, lopdf::Error> {
+    let permissions = Permissions::from_bits_truncate(h.perms);
+    let v = match h.kind {
+        Kind::V1 => EncryptionVersion::V1 { document: doc, owner_password: owner, user_password: user, permissions },
+        Kind::V2(bits) => EncryptionVersion::V2 { document: doc, owner_password: owner, user_password: user, key_length: bits, permissions },
+        Kind::V4 => EncryptionVersion::V4 { document: doc, encrypt_metadata: h.em, crypt_filters: lib_filters(h), stream_filter: h.stm.as_bytes().to_vec(),
+                                            string_filter: h.strf.as_bytes().to_vec(), owner_password: owner, user_password: user, permissions },
+        Kind::R5 => EncryptionVersion::R5 { encrypt_metadata: h.em, crypt_filters: lib_filters(h), file_encryption_key: &h.key, stream_filter: h.stm.as_bytes().to_vec(),
+                                            string_filter: h.strf.as_bytes().to_vec(), owner_password: owner, user_password: user, permissions },
+        Kind::V5 => EncryptionVersion::V5 { encrypt_metadata: h.em, crypt_filters: lib_filters(h), file_encryption_key: &h.key, stream_filter: h.stm.as_bytes().to_vec(),
+                                            string_filter: h.strf.as_bytes().to_vec(), owner_password: owner, user_password: user, permissions },
+    };
+    EncryptionState::try_from(v)
+}
+
+fn catch<T>(f: impl FnOnce() -> T) -> Result<T, String> {
+    catch_unwind(AssertUnwindSafe(f)).map_err(|e| {
+        if let Some(s) = e.downcast_ref::<String>() { s.clone() } else if let Some(s) = e.downcast_ref::<&str>() { s.to_string() } else { "panic".to_string() }
+    })
+}
+
+// ---------------------------------------------------------------------------------------------------------------
+// the model
+// ---------------------------------------------------------------------------------------------------------------
+
+/// what the model expects of one string / stream after encryption
+#[derive(Clone, Copy, Debug, PartialEq)]
+enum Exp { Plain, Rc4, Aes, Unspec }
+
+fn exp_of(m: M) -> Exp { match m { M::Rc4 => Exp::Rc4, M::Aes128 | M::Aes256 => Exp::Aes, M::Identity => Exp::Plain } }
+
+/// a filter named by StmF / StrF: a registered name selects that filter; the predefined name /Identity is never listed in
+/// CF (ISO 7.6.6) - the library runs RC4 for it, ISO says identity; the round trip must hold either way, the model leaves the ciphertext unspecified
+fn model_named(h: &Handler, n: &str) -> Exp {
+    match h.registry().iter().find(|x| x.0 == n) { Some((_, m)) => exp_of(*m), None => Exp::Unspec }
+}
+
+fn model_string(h: &Handler) -> Exp { if h.has_cf() { model_named(h, &h.strf) } else { Exp::Rc4 } }
+
+fn is_type(d: &Dictionary, t: &[u8]) -> bool { matches!(d.get(b"Type"), Ok(Object::Name(n)) if n.as_slice() == t) }
+
+fn has_crypt(d: &Dictionary) -> bool {
+    match d.get(b"Filter") {
+        Ok(Object::Name(n)) => n.as_slice() == b"Crypt",
+        Ok(Object::Array(a)) => a.iter().any(|o| matches!(o, Object::Name(n) if n.as_slice() == b"Crypt")),
+        _ => false,
+    }
+}
+
+fn model_stream(h: &Handler, s: &Stream) -> Exp {
+    if is_type(&s.dict, b"XRef") { return Exp::Plain; }
+    if is_type(&s.dict, b"Metadata") && !h.em { return Exp::Plain; }
+    if has_crypt(&s.dict) {
+        if !h.has_cf() { return Exp::Unspec; } // crypt filters mean nothing before V4
+        return match s.dict.get(b"DecodeParms") {
+            Ok(Object::Dictionary(p)) => match p.get(b"Name") {
+                Err(_) => Exp::Plain, // ISO table 14: default /Identity
+                Ok(Object::Name(n)) => match h.registry().iter().find(|x| x.0.as_bytes() == n.as_slice()) { Some((_, m)) => exp_of(*m), None => Exp::Unspec },
+                Ok(_) => Exp::Unspec,
+            },
+            _ => Exp::Unspec, // no parameters at all: ISO says Identity, the library uses StmF; not pinned down here
+        };
+    }
+    if h.has_cf() { model_named(h, &h.stm) } else { Exp::Rc4 }
+}
+
+type Fails = Vec<(String, String)>;
+
+fn push(f: &mut Fails, ob: &str, detail: String) {
+    if !f.iter().any(|x| x.0 == ob) { f.push((ob.to_string(), detail)); }
+}
+
+fn check_cipher(exp: Exp, plain: &[u8], cipher: &[u8], what: &str, ob_override: Option<&str>, f: &mut Fails) {
+    match exp {
+        Exp::Unspec => {}
+        Exp::Plain => if plain != cipher { push(f, ob_override.unwrap_or("identity-or-exempt-unchanged"), format!("{}: identity-filtered / exempt data was changed by encrypt ({} -> {} bytes)", what, plain.len(), cipher.len())); },
+        Exp::Rc4 => {
+            if plain.len() != cipher.len() { push(f, ob_override.unwrap_or("ciphertext-shape"), format!("{}: RC4 ciphertext has {} bytes for {} bytes of plaintext", what, cipher.len(), plain.len())); }
+            else if plain.len() >= 16 && plain == cipher { push(f, ob_override.unwrap_or("ciphertext-differs"), format!("{}: {} bytes subject to RC4 still equal the plaintext after encrypt", what, plain.len())); }
+        }
+        Exp::Aes => {
+            let want = 16 + (plain.len() / 16 + 1) * 16;
+            if plain.len() >= 16 && plain == cipher { push(f, ob_override.unwrap_or("ciphertext-differs"), format!("{}: {} bytes subject to AES still equal the plaintext after encrypt", what, plain.len())); }
+            else if cipher.len() != want { push(f, ob_override.unwrap_or("ciphertext-shape"), format!("{}: AES ciphertext has {} bytes, IV + PKCS#5 padded plaintext of {} bytes is {}", what, cipher.len(), plain.len(), want)); }
+        }
+    }
+}
+
+#[derive(Clone, Copy)]
+struct Ctx { in_stream_dict: bool, in_meta_dict: bool }
+
+/// parallel walk of the original and the encrypted object
+fn walk_enc(h: &Handler, o: &Object, e: &Object, ctx: Ctx, path: &str, f: &mut Fails) {
+    match (o, e) {
+        (Object::String(p, pf), Object::String(c, cf)) => {
+            if pf != cf { push(f, "non-string-unchanged", format!("{}: string format changed", path)); }
+            // ISO 7.6.2: every string of the file is encrypted except /ID, the strings of the Encrypt dictionary and strings inside streams
+            let ob = if ctx.in_stream_dict { Some("stream-dict-string-encrypted") } else if ctx.in_meta_dict { Some("metadata-dict-string-encrypted") } else { None };
+            check_cipher(model_string(h), p, c, &format!("string at {}", path), ob, f);
+        }
+        (Object::Array(a), Object::Array(b)) => {
+            if a.len() != b.len() { push(f, "non-string-unchanged", format!("{}: array length changed", path)); return; }
+            for (i, (x, y)) in a.iter().zip(b.iter()).enumerate() { walk_enc(h, x, y, ctx, &format!("{}[{}]", path, i), f); }
+        }
+        (Object::Dictionary(a), Object::Dictionary(b)) => {
+            let c2 = Ctx { in_meta_dict: ctx.in_meta_dict || (is_type(a, b"Metadata") && !h.em), ..ctx };
+            walk_dict(h, a, b, c2, path, &[], f);
+        }
+        (Object::Stream(a), Object::Stream(b)) => {
+            if is_type(&a.dict, b"XRef") {
+                if a.dict != b.dict || a.content != b.content { push(f, "identity-or-exempt-unchanged", format!("{}: cross-reference stream was changed by encrypt", path)); }
+                return;
+            }
+            walk_dict(h, &a.dict, &b.dict, Ctx { in_stream_dict: true, ..ctx }, path, &[b"Length"], f);
+            match b.dict.get(b"Length") {
+                Ok(Object::Integer(n)) if *n == b.content.len() as i64 => {}
+                other => push(f, "ciphertext-shape", format!("{}: /Length {:?} after encrypt, content has {} bytes", path, other.ok(), b.content.len())),
+            }
+            check_cipher(model_stream(h, a), &a.content, &b.content, &format!("stream at {}", path), None, f);
+        }
+        (x, y) => if x != y { push(f, "non-string-unchanged", format!("{}: {:?} became {:?}", path, x, y)); },
+    }
+}
+
+fn walk_dict(h: &Handler, a: &Dictionary, b: &Dictionary, ctx: Ctx, path: &str, skip: &[&[u8]], f: &mut Fails) {
+    if a.len() != b.len() { push(f, "non-string-unchanged", format!("{}: dictionary size changed", path)); return; }
+    for (k, x) in a.iter() {
+        if skip.contains(&k.as_slice()) { continue; }
+        match b.get(k) {
+            Ok(y) => walk_enc(h, x, y, ctx, &format!("{}/{}", path, String::from_utf8_lossy(k)), f),
+            Err(_) => push(f, "non-string-unchanged", format!("{}: key {} disappeared", path, String::from_utf8_lossy(k))),
+        }
+    }
+}
+
+/// first difference between an original object and what came back; strict = in memory (formats and f32 bits too)
+fn diff_obj(a: &Object, b: &Object, strict: bool, path: &str) -> Option<String> {
+    match (a, b) {
+        (Object::String(x, fx), Object::String(y, fy)) => {
+            if x != y { return Some(format!("string at {}: expected {} bytes {}, got {} bytes {}", path, x.len(), short_hex(x), y.len(), short_hex(y))); }
+            if strict && fx != fy { return Some(format!("string at {}: format changed", path)); }
+            None
+        }
+        (Object::Array(x), Object::Array(y)) => {
+            if x.len() != y.len() { return Some(format!("array at {}: length {} vs {}", path, x.len(), y.len())); }
+            x.iter().zip(y.iter()).enumerate().find_map(|(i, (p, q))| diff_obj(p, q, strict, &format!("{}[{}]", path, i)))
+        }
+        (Object::Dictionary(x), Object::Dictionary(y)) => diff_dict(x, y, strict, path, &[]),
+        (Object::Stream(x), Object::Stream(y)) => {
+            if let Some(d) = diff_dict(&x.dict, &y.dict, strict, path, &[]) { return Some(d); }
+            if x.content != y.content { return Some(format!("stream at {}: expected {} bytes {}, got {} bytes {}", path, x.content.len(), short_hex(&x.content), y.content.len(), short_hex(&y.content))); }
+            None
+        }
+        (x, y) => {
+            let same = if strict { x == y } else { obj_eq(x, y) };
+            if same { None } else { Some(format!("{}: expected {:?}, got {:?}", path, x, y)) }
+        }
+    }
+}
+
+fn diff_dict(x: &Dictionary, y: &Dictionary, strict: bool, path: &str, ignore: &[&[u8]]) -> Option<String> {
+    for (k, v) in x.iter() {
+        if ignore.contains(&k.as_slice()) { continue; }
+        match y.get(k) {
+            Ok(w) => if let Some(d) = diff_obj(v, w, strict, &format!("{}/{}", path, String::from_utf8_lossy(k))) { return Some(d); },
+            Err(_) => return Some(format!("{}: key {} missing", path, String::from_utf8_lossy(k))),
+        }
+    }
+    for (k, _) in y.iter() {
+        if ignore.contains(&k.as_slice()) { continue; }
+        if x.get(k).is_err() { return Some(format!("{}: extra key {}", path, String::from_utf8_lossy(k))); }
+    }
+    None
+}
+
+fn short_hex(b: &[u8]) -> String { if b.len() <= 24 { hex(b) } else { format!("{}..", hex(&b[..24])) } }
+
+/// the decrypted document `d` must be the original: no /Encrypt, no encryption dictionary object, all objects and the trailer as before
+fn check_restored(orig: &Document, d: &Document, enc_id: Option<(u32, u16)>, strict: bool, tag: &str, f: &mut Fails) {
+    if d.trailer.get(b"Encrypt").is_ok() { push(f, &format!("{}-encrypt-dict-removed", tag), "trailer still has /Encrypt after a successful decrypt".into()); }
+    if let Some(id) = enc_id { if d.objects.contains_key(&id) && !orig.objects.contains_key(&id) { push(f, &format!("{}-encrypt-dict-removed", tag), format!("encryption dictionary object {} {} is still in the document", id.0, id.1)); } }
+    let skip = |o: &Object| !strict && is_bookkeeping_object(o);
+    for (id, o) in &orig.objects {
+        if skip(o) { continue; }
+        match d.objects.get(id) {
+            None => { push(f, &format!("{}-restores", tag), format!("object {} {} is missing after decrypt", id.0, id.1)); }
+            Some(r) => if let Some(df) = diff_obj(o, r, strict, &format!("{} {}", id.0, id.1)) { push(f, &format!("{}-restores", tag), df); },
+        }
+    }
+    for (id, o) in &d.objects {
+        if skip(o) || Some(*id) == enc_id { continue; }
+        if !orig.objects.contains_key(id) { push(f, &format!("{}-restores", tag), format!("unexpected object {} {} after decrypt: {:?}", id.0, id.1, o)); }
+    }
+    let ignore: Vec<&[u8]> = if strict { vec![b"Encrypt"] } else { let mut v = BOOKKEEPING.to_vec(); v.push(b"Encrypt"); v };
+    if let Some(df) = diff_dict(&orig.trailer, &d.trailer, strict, "trailer", &ignore) { push(f, &format!("{}-restores", tag), df); }
+}
+
+/// characters PDFDocEncoding can certainly represent (all my Latin test passwords stay inside this set)
+fn pdfdoc_ok(c: char) -> bool { (' '..='~').contains(&c) || ('\u{a1}'..='\u{ff}').contains(&c) }
+fn strip_nonlatin(s: &str) -> String { s.chars().filter(|c| pdfdoc_ok(*c)).collect() }
+fn has_nonlatin(s: &str) -> bool { s.chars().any(|c| !pdfdoc_ok(c)) }
+
+/// passwords that are neither the user nor the owner password, and that differ from both inside the significant prefix
+/// (32 bytes for revisions 2-4, 127 for 5-6), so truncation cannot make them equal
+fn wrong_passwords(user: &str, owner: &str) -> Vec<String> {
+    let mut c: Vec<String> = vec!["wrong".into(), "\u{43d}\u{435}\u{432}\u{435}\u{440}\u{43d}\u{43e}".into()];
+    if !user.is_empty() && !owner.is_empty() { c.push(String::new()); }
+    for p in [user, owner] {
+        if p.chars().count() < 20 { c.push(format!("{}x", p)); } else { let mut s: String = "#".into(); s.extend(p.chars().skip(1)); c.push(s); }
+    }
+    let mut out: Vec<String> = vec![];
+    for w in c { if w != user && w != owner && !out.contains(&w) { out.push(w); } }
+    out
+}
+
+// ---------------------------------------------------------------------------------------------------------------
+// one case
+// ---------------------------------------------------------------------------------------------------------------
+
+struct Case<'a> { h: &'a Handler, user: &'a str, owner: &'a str, doc: &'a DocS }
+
+fn case_json(c: &Case, obligation: &str) -> Value {
+    json!({"obligation": obligation, "handler": c.h.to_json(), "user": c.user, "owner": c.owner, "doc": doc_json(c.doc)})
+}
+
+/// decrypt `enc` (a clone) with a password that must be accepted and compare with the original
+fn expect_decrypts(orig: &Document, enc: &Document, enc_id: Option<(u32, u16)>, pw: &str, strict: bool, tag: &str, f: &mut Fails) {
+    let mut d = enc.clone();
+    match catch(|| d.decrypt(pw)) {
+        Err(p) => push(f, "no-panic", format!("{}: decrypt panicked: {}", tag, p)),
+        Ok(Err(e)) => push(f, &format!("{}-ok", tag), format!("decrypt with the correct password failed: {}", e)),
+        Ok(Ok(())) => check_restored(orig, &d, enc_id, strict, tag, f),
+    }
+}
+
+fn expect_rejects(h: &Handler, enc: &Document, user: &str, owner: &str, tag: &str, f: &mut Fails) {
+    for w in wrong_passwords(user, owner) {
+        // under revisions 2-4 the password goes through PDFDocEncoding; a password that differs from the real one only by
+        // characters outside that encoding is reported under its own obligation name
+        let collides = h.legacy() && (has_nonlatin(&w) || has_nonlatin(user) || has_nonlatin(owner)) && (strip_nonlatin(&w) == strip_nonlatin(user) || strip_nonlatin(&w) == strip_nonlatin(owner));
+        let suffix = if collides { "-nonlatin" } else { "" };
+        let mut d = enc.clone();
+        match catch(|| d.decrypt(&w)) {
+            Err(p) => push(f, "no-panic", format!("{}: decrypt with a wrong password panicked: {}", tag, p)),
+            Ok(Ok(())) => push(f, &format!("{}-wrong-password-rejected{}", tag, suffix), format!("decrypt({:?}) returned Ok although the user password is {:?} and the owner password is {:?}", w, short(user), short(owner))),
+            Ok(Err(_)) => {
+                if d.objects != enc.objects || d.trailer != enc.trailer { push(f, &format!("{}-wrong-password-unchanged", tag), format!("decrypt({:?}) returned Err but modified the document", w)); }
+            }
+        }
+    }
+}
+
+fn short(s: &str) -> String { if s.chars().count() > 40 { format!("{}..({} bytes)", s.chars().take(40).collect::<String>(), s.len()) } else { s.to_string() } }
+
+fn check_case(c: &Case, state: Option<&EncryptionState>, formats: &[bool]) -> Fails {
+    let mut f: Fails = vec![];
+    let h = c.h;
+    let orig = build_doc(c.doc);
+    // 1. the state (document independent for R5/V5, so the caller may pass it in)
+    let own;
+    let state = match state {
+        Some(s) => s,
+        None => match catch(|| make_state(h, &orig, c.user, c.owner)) {
+            Err(p) => { push(&mut f, "no-panic", format!("EncryptionState::try_from panicked: {}", p)); return f; }
+            Ok(Err(e)) => { push(&mut f, "state-ok", format!("EncryptionState::try_from failed for a supported configuration: {}", e)); return f; }
+            Ok(Ok(s)) => { own = s; &own }
+        },
+    };
+    // 2. encrypt
+    let mut enc = orig.clone();
+    match catch(|| enc.encrypt(state)) {
+        Err(p) => { push(&mut f, "no-panic", format!("encrypt panicked: {}", p)); return f; }
+        Ok(Err(e)) => { push(&mut f, "encrypt-ok", format!("encrypt failed: {}", e)); return f; }
+        Ok(Ok(())) => {}
+    }
+    // 3. shape of the encrypted document
+    let enc_id = match enc.trailer.get(b"Encrypt") { Ok(Object::Reference(id)) => Some(*id), _ => None };
+    match enc_id {
+        None => push(&mut f, "encrypt-dict", "trailer has no /Encrypt reference after encrypt".into()),
+        Some(id) => {
+            if orig.objects.contains_key(&id) { push(&mut f, "encrypt-dict", format!("the encryption dictionary took the id {} {} of an existing object", id.0, id.1)); }
+            match enc.objects.get(&id) {
+                Some(Object::Dictionary(d)) => {
+                    let (v, r) = h.v_r();
+                    let ok = matches!(d.get(b"Filter"), Ok(Object::Name(n)) if n.as_slice() == b"Standard") && matches!(d.get(b"V"), Ok(Object::Integer(x)) if *x == v) && matches!(d.get(b"R"), Ok(Object::Integer(x)) if *x == r);
+                    if !ok { push(&mut f, "encrypt-dict", format!("encryption dictionary does not announce /Filter /Standard /V {} /R {}: {:?}", v, r, d)); }
+                }
+                other => push(&mut f, "encrypt-dict", format!("/Encrypt does not point to a dictionary: {:?}", other)),
+            }
+        }
+    }
+    if let Some(df) = diff_dict(&orig.trailer, &enc.trailer, true, "trailer", &[b"Encrypt"]) { push(&mut f, "non-string-unchanged", format!("encrypt changed the trailer: {}", df)); }
+    for (id, o) in &orig.objects {
+        match enc.objects.get(id) {
+            None => push(&mut f, "non-string-unchanged", format!("object {} {} disappeared in encrypt", id.0, id.1)),
+            Some(e) => walk_enc(h, o, e, Ctx { in_stream_dict: false, in_meta_dict: false }, &format!("{} {}", id.0, id.1), &mut f),
+        }
+    }
+    if enc.objects.len() != orig.objects.len() + 1 { push(&mut f, "non-string-unchanged", format!("encrypt changed the number of objects from {} to {}", orig.objects.len(), enc.objects.len())); }
+    // 4. in memory: user password, owner password, wrong passwords
+    expect_decrypts(&orig, &enc, enc_id, c.user, true, "mem-user", &mut f);
+    expect_decrypts(&orig, &enc, enc_id, c.owner, true, "mem-owner", &mut f);
+    expect_rejects(h, &enc, c.user, c.owner, "mem", &mut f);
+    // 5. through save + load
+    if c.doc.reload {
+        for &xs in formats {
+            let tag = "reload";
+            let mut s = enc.clone();
+            s.reference_table.cross_reference_type = if xs { XrefType::CrossReferenceStream } else { XrefType::CrossReferenceTable };
+            let mut bytes = vec![];
+            match catch(|| s.save_to(&mut bytes)) {
+                Err(p) => { push(&mut f, "no-panic", format!("save of the encrypted document panicked: {}", p)); continue; }
+                Ok(Err(e)) => { push(&mut f, "reload-save-ok", format!("save of the encrypted document failed: {}", e)); continue; }
+                Ok(Ok(())) => {}
+            }
+            let loaded = match catch(|| Document::load_mem(&bytes)) {
+                Err(p) => { push(&mut f, "no-panic", format!("load of the encrypted file panicked: {}", p)); continue; }
+                Ok(Err(e)) => {
+                    let auto = c.user.is_empty() || c.owner.is_empty();
+                    push(&mut f, if auto { "reload-auto-load-ok" } else { "reload-load-ok" }, format!("load of the saved encrypted file failed (xref stream={}): {}", xs, e));
+                    continue;
+                }
+                Ok(Ok(d)) => d,
+            };
+            let expect_auto = c.user.is_empty() || c.owner.is_empty();
+            let is_enc = loaded.trailer.get(b"Encrypt").is_ok();
+            if expect_auto {
+                if is_enc { push(&mut f, "reload-auto-decrypt", "the empty password is the user or owner password but the loader left the document encrypted".into()); }
+                else { check_restored(&orig, &loaded, enc_id, false, "reload-auto", &mut f); }
+            } else if !is_enc {
+                let nl = h.legacy() && (strip_nonlatin(c.user).is_empty() || strip_nonlatin(c.owner).is_empty());
+                push(&mut f, if nl { "reload-stays-encrypted-nonlatin" } else { "reload-stays-encrypted" },
+                     format!("neither password is empty (user {:?}, owner {:?}) but the loader decrypted the file without a password", short(c.user), short(c.owner)));
+            } else {
+                expect_decrypts(&orig, &loaded, enc_id, c.user, false, "reload-user", &mut f);
+                expect_decrypts(&orig, &loaded, enc_id, c.owner, false, "reload-owner", &mut f);
+                expect_rejects(h, &loaded, c.user, c.owner, tag, &mut f);
+            }
+        }
+    }
+    f
+}
+
+// ---------------------------------------------------------------------------------------------------------------
+// the run
+// ---------------------------------------------------------------------------------------------------------------
+
+struct Config { h: Handler, user: String, owner: String, family_b: bool }
+
+struct CaseOut { nontrivial: bool, fails: Vec<(String, String, Value)>, sample: String, group: String }
+
+fn run_config(cfg: &Config, thorough: bool) -> Vec<CaseOut> {
+    let docs = if cfg.family_b { docs_b(&cfg.h) } else { docs_a(&cfg.h, thorough) };
+    // R5/V5 states do not depend on the document: build once (the key-derivation hash is the expensive part)
+    let shared = if cfg.h.legacy() { None } else { catch(|| make_state(&cfg.h, &Document::with_version("1.7"), &cfg.user, &cfg.owner)).ok().and_then(|r| r.ok()) };
+    let formats: &[bool] = if thorough { &[false, true] } else { &[false] };
+    let mut out = Vec::with_capacity(docs.len());
+    for d in &docs {
+        let c = Case { h: &cfg.h, user: &cfg.user, owner: &cfg.owner, doc: d };
+        let both = [false, true];
+        let fm: &[bool] = if d.label.starts_with("full") { &both } else { formats };
+        let fails = check_case(&c, shared.as_ref(), fm);
+        let nontrivial = d.objects.iter().any(|(_, o)| has_payload(o));
+        out.push(CaseOut {
+            nontrivial,
+            fails: fails.into_iter().map(|(ob, det)| { let j = case_json(&c, &ob); (ob, det, j) }).collect(),
+            sample: format!("{} user={:?} owner={:?} doc={}", cfg.h.describe(), short(&cfg.user), short(&cfg.owner), d.label),
+            group: format!("{:?} StmF={} StrF={} em={} user={:?} owner={:?}", cfg.h.kind, cfg.h.stm, cfg.h.strf, cfg.h.em, short(&cfg.user), short(&cfg.owner)),
+        });
+    }
+    out
+}
+
+fn has_payload(o: &Object) -> bool {
+    match o {
+        Object::String(s, _) => !s.is_empty(),
+        Object::Stream(s) => !s.content.is_empty(),
+        Object::Array(a) => a.iter().any(has_payload),
+        Object::Dictionary(d) => d.iter().any(|(_, v)| has_payload(v)),
+        _ => false,
+    }
+}
+
+fn configs(thorough: bool) -> Vec<Config> {
+    let mut out = vec![];
+    let pws = password_pairs();
+    for h0 in handlers(thorough) {
+        for p in perm_sets(thorough) {
+            for (u, o) in &pws {
+                let mut h = h0.clone();
+                h.perms = p;
+                out.push(Config { h, user: u.clone(), owner: o.clone(), family_b: false });
+            }
+        }
+    }
+    if thorough {
+        // family B: ordered pairs of alphabet objects, one password pair, all permissions; R5/V5 with the first key and registered filters only
+        for h0 in handlers(false) {
+            let mut h = h0.clone();
+            h.perms = PERM_ALL;
+            out.push(Config { h, user: "user".into(), owner: "owner".into(), family_b: true });
+        }
+    }
+    out
+}
+
+const BOUND: &str = "family A = handlers x permission sets x password pairs x documents, fully enumerated. handlers: V1; V2 with every key length 40,48..128; \
+V4 with CF {FRc4:V2, FAes:AESV2, FId:Identity}, StmF x StrF over {FRc4,FAes,FId,/Identity (not in CF)} x EncryptMetadata {t,f}; R5 and V5 (AES-256, CF {StdCF:AESV3, FId:Identity}) with \
+StmF x StrF over {StdCF,FId} (thorough: + /Identity) x EncryptMetadata {t,f} x file key {pattern} (thorough: + all-zero). permission sets {all, print+copy} (thorough: + none, modify+annotate+fill+assemble). \
+12 (user, owner) password pairs: both empty, empty user, empty owner, ASCII distinct, owner == user, Latin-1, Cyrillic, CJK user, 40-byte pair, pair sharing a 32-byte prefix, 130-byte pair, pair sharing a 127-byte prefix. \
+documents: each object of a 26..30-object alphabet alone (empty/5/15/16/17/33-byte literal and hex strings, strings nested in arrays and dictionaries to depth 3, empty/5/15/16/300-byte binary streams, Metadata stream (also empty), \
+stream with a string in its dictionary, /Type /Metadata plain dictionaries, XRef-typed stream, streams with /Filter /Crypt and DecodeParms /Name = each CF name / missing / unknown / no DecodeParms, name and [array] form) at id 7 3 \
+(thorough: ids 1 0, 7 3, 300 65535), one string at id 16777221 1 (memory only), and the document of the whole alphabet at sparse ids with generations 0/2 (R5/V5: also without /ID). \
+Each case: encrypt, model check of every ciphertext, decrypt in memory with user / owner / 3-5 wrong passwords, save (xref table; whole-alphabet document and thorough: also xref stream) + load + the same three decrypts or the auto-decrypt expectation. \
+family B (thorough only) = handlers of the quick tier x (user, owner) x all permissions x all ordered pairs of alphabet objects as a two-object document. \
+Not enumerated: ObjStm-typed streams, documents whose max_id is below an existing id, passwords that SASLprep prohibits";
+
+pub fn run(thorough: bool) -> Report {
+    let mut rep = Report::new(BOUND, true);
+    let cfgs = configs(thorough);
+    let prev = std::panic::take_hook();
+    std::panic::set_hook(Box::new(|_| {}));
+    let results: Vec<Vec<CaseOut>> = cfgs.par_iter().map(|c| run_config(c, thorough)).collect();
+    std::panic::set_hook(prev);
+    let mut n = 0u64;
+    let stats = std::env::var("C05_STATS").is_ok();
+    let mut agg: BTreeMap<(String, String), (u64, String)> = BTreeMap::new();
+    for cfg_out in results {
+        for c in cfg_out {
+            if stats { for (ob, det, _) in &c.fails { let e = agg.entry((ob.clone(), c.group.clone())).or_insert((0, format!("{} :: {}", c.sample, det))); e.0 += 1; } }
+            rep.case(c.nontrivial);
+            n += 1;
+            if n % 9973 == 1 { rep.sample(c.sample.clone()); }
+            for (ob, det, input) in c.fails { rep.fail(&ob, det.clone(), input, det); }
+        }
+    }
+    if stats { for ((ob, g), (k, first)) in &agg { eprintln!("{:6} {} | {} | first: {}", k, ob, g, first); } }
+    rep
+}
+
+pub fn replay(v: &Value) -> Result<(), String> {
+    let h = Handler::from_json(&v["handler"]);
+    let doc = doc_from_json(&v["doc"]);
+    let user = v["user"].as_str().unwrap_or("").to_string();
+    let owner = v["owner"].as_str().unwrap_or("").to_string();
+    let c = Case { h: &h, user: &user, owner: &owner, doc: &doc };
+    let prev = std::panic::take_hook();
+    std::panic::set_hook(Box::new(|_| {}));
+    let fails = check_case(&c, None, &[false, true]);
+    std::panic::set_hook(prev);
+    let want = v["obligation"].as_str().unwrap_or("");
+    match fails.iter().find(|x| want.is_empty() || x.0 == want) {
+        Some((ob, det)) => Err(format!("{}: {}", ob, det)),
+        None => Ok(()),
+    }
 }
